@@ -14,6 +14,12 @@
 (* message of an earlier connection of this pair, or reflect the receiver's   *)
 (* own message back to it.  `forgot` says whether the receiver lost its       *)
 (* session state since the earlier connection (stale time stamps acceptable). *)
+(* "splice" is the composition of replay and alteration: the message is put    *)
+(* together from the message in flight and material the receiver has seen and  *)
+(* verified before (a message of an earlier connection of this pair, or an      *)
+(* earlier message of this connection) - e.g. today's bytes under the           *)
+(* signature of the earlier message, or the earlier message with today's time   *)
+(* stamp.  Whatever the mix, its sender never produced these bytes.             *)
 (* When a router aborts it closes the connection, which aborts the other      *)
 (* router unless it is already done.                                          *)
 (***************************************************************************)
@@ -22,7 +28,7 @@ EXTENDS Integers, Sequences, FiniteSets, TLC, Json
 Ends == {"A", "B"}
 Peer(x) == IF x = "A" THEN "B" ELSE "A"
 Kinds == <<"req", "resp", "ack">>
-Ops == {"none", "drop", "corrupt", "truncate", "dup", "swap", "replayold", "reflect"}
+Ops == {"none", "drop", "corrupt", "truncate", "dup", "swap", "replayold", "reflect", "splice"}
 Secrets == {"", "s", "t"}
 
 VARIABLES cfg,    \* [uniA, uniB, secA, secB]
@@ -59,7 +65,7 @@ Through(x, m) ==
       hit == plan.dir = x /\ plan.idx = i
   IN IF ~hit \/ plan.op = "none" THEN <<m>>
      ELSE CASE plan.op = "drop" -> <<>>
-            [] plan.op \in {"corrupt", "truncate"} -> <<[m EXCEPT !.good = FALSE, !.why = plan.op]>>
+            [] plan.op \in {"corrupt", "truncate", "splice"} -> <<[m EXCEPT !.good = FALSE, !.why = plan.op]>>
             [] plan.op = "dup" -> <<m, [m EXCEPT !.good = FALSE, !.why = "dup"]>>      \* the copy repeats a time stamp
             [] plan.op = "swap" -> <<[m EXCEPT !.why = "held"]>>                          \* held back, see Send
             [] plan.op = "replayold" -> <<[m EXCEPT !.good = (plan.forgot /\ m.kind = "req"), !.why = "old"]>>
